@@ -47,6 +47,14 @@ package sync
 //@   atomic [effect] mapIsDelete(m.data, key)
 //@   atomic [result] ok == old(present(m.data, key)) && (ok ==> v == old(m.data[key]))
 //
+//@ func (*Map) CopyData() (c map[K]V)
+//@   requires m != nil
+//@   cs-pure mapUnchanged(m.data)
+//@   atomic [read-only] mapUnchanged(m.data)
+//@   atomic [snapshot-keys] forall k int :: {present(c, k)} present(c, k) <==> present(m.data, k)
+//@   atomic [snapshot-values] forall k int :: {present(c, k)} present(m.data, k) ==> c[k] == m.data[k]
+//@   ensures [own-copy] fresh(c)
+//
 //@ func (*Map) Length() (n int)
 //@   requires m != nil
 //@   cs-pure mapUnchanged(m.data)
